@@ -326,7 +326,7 @@ def canon_side(ops, fields):
     res, raw = [], []
     for k, (op, f) in enumerate(zip(ops, fields)):
         name = cname(op)
-        f = f.rstrip("~")
+        f = f.split("~")[0]
         if f.startswith("V"):
             v = dec_str(f[1:])
             raw.append(v)
@@ -374,9 +374,19 @@ def compare_history(ops, mfields, ifields):
     ci, rawi = canon_side(ops, ifields)
     for k, op in enumerate(ops):
         name = cname(op)
-        if mfields[k].endswith("~"):
+        if "~" in mfields[k]:
             if name != "array_concat":
                 return "diff", k, "model and specification differ on a command other than array_concat", notes
+            if cm[k] != ci[k]:
+                ideal = mfields[k].split("~")[1]
+                same_as_spec = ((ideal == "H" and ci[k][0] == "V" and ci[k][1] == "⟨%d⟩" % k) or
+                                (ideal[:1] == "E" and ci[k][0] == ideal))
+                if same_as_spec:
+                    # the implementation answers what the specification says, not what the as-is definition
+                    # says: F6 does not reproduce here (repaired?).  Not a violation; the rest of this history
+                    # cannot be compared against the as-is model.
+                    notes.add("F6-not-reproduced")
+                    return "truncated", k, "", notes
             notes.add("F6")
         if name in SCRIPT:
             args = resolve_args(op, rawm)
@@ -560,7 +570,7 @@ def run(ck):
 
     lines = ["H\t" + "\t".join(ops) for (_, ops) in hist]
     found = False
-    stats = {"ok": 0, "truncated": 0, "F6": 0, "F7": 0, "F7-exposed": 0}
+    stats = {"ok": 0, "truncated": 0, "F6": 0, "F7": 0, "F7-exposed": 0, "F6-not-reproduced": 0}
     if model_ok:
         m = ck.model(lines)
         im = ck.impl(lines)
@@ -581,8 +591,10 @@ def run(ck):
                     nm = cname(op)
                     opcount[nm] = opcount.get(nm, 0) + 1
                     kk = f[:2] if f[:1] == "E" else f[:1]
+                    if "~" in f:
+                        kk = "F6 step (differs from the specification)"
                     outkinds[kk] = outkinds.get(kk, 0) + 1
-                    g = f.rstrip("~")
+                    g = f.split("~")[0]
                     br = ("true" if g == "V116.114.117.101" else "false" if g == "V102.97.108.115.101" else
                           "handle" if g.startswith("V104.97.110.100.108.101.58") else g[:2] if g[:1] == "E" else
                           "none" if g == "N" else "value" if g[:1] == "V" else g[:1])
